@@ -148,14 +148,16 @@ Families == {"cubic", "tetragonal", "orthorhombic", "hexagonal", "rhombohedral",
 RouteFamily(route) ==
   CASE route \in {"cubic", "unique_cubic"} -> "cubic"
     [] route \in {"tetragonal_rad", "tetragonal_deg", "unique_tetragonal"} -> "tetragonal"
-    [] route \in {"orthorhombic", "unique_orthorhombic"} -> "orthorhombic"
-    [] route \in {"hexagonal", "unique_hexagonal"} -> "hexagonal"
+    [] route \in {"orthorhombic", "orthorhombic_deg", "unique_orthorhombic"} -> "orthorhombic"
+    [] route \in {"hexagonal", "hexagonal_deg", "unique_hexagonal"} -> "hexagonal"
     [] route \in {"rhombohedral_rad", "rhombohedral_deg", "unique_rhombohedral"} -> "rhombohedral"
     [] route \in {"monoclinic_rad", "monoclinic_deg", "unique_monoclinic"} -> "monoclinic"
-    [] route \in {"vectors", "params_rad", "params_deg", "triclinic_rad", "triclinic_deg", "unique_triclinic"} -> "triclinic"
+    \* respec_*: an existing, already used cell re-specified in place (set_vectors / set_lengths_and_angles)
+    [] route \in {"vectors", "params_rad", "params_deg", "triclinic_rad", "triclinic_deg", "unique_triclinic",
+                  "respec_vectors", "respec_params"} -> "triclinic"
     [] OTHER -> "unknown"
 (* routes that go through set_lengths_and_angles (lower triangular embedding) *)
-ParamsRoute(route) == route \notin {"vectors", "cubic", "orthorhombic", "unique_cubic", "unique_orthorhombic"}
+ParamsRoute(route) == route \notin {"vectors", "respec_vectors", "cubic", "orthorhombic", "orthorhombic_deg", "unique_cubic", "unique_orthorhombic"}
 
 (* ---- BigInt 3x3 (observed matrices, entries scaled by 2^K) ---------------- *)
 B3Mul(A, B) == [i \in Ix |-> [j \in Ix |->
